@@ -55,6 +55,7 @@ static struct {
 	bool nostdlib;
 	bool verbose;
 } flags;
+static struct array tmpfiles;  /* temporary objects, removed at exit */
 static struct stageinfo stages[] = {
 	[PREPROCESS] = {.name = "preprocess"},
 	[COMPILE]    = {.name = "compile"},
@@ -77,6 +78,15 @@ usage(const char *fmt, ...)
 	}
 	fprintf(stderr, "usage: %s [-c|-S|-E] [-D name[=value]] [-U name] [-s] [-g] [-o output] input...\n", argv0);
 	exit(2);
+}
+
+static void
+removetmpfiles(void)
+{
+	char **name;
+
+	arrayforeach (&tmpfiles, name)
+		unlink(*name);
 }
 
 static enum filetype
@@ -237,6 +247,7 @@ buildobj(struct input *input, char *output)
 		if (fd < 0)
 			fatal("mkstemp:");
 		close(fd);
+		arrayaddptr(&tmpfiles, output);
 	} else if (output) {
 		if (strcmp(output, "-") == 0)
 			output = NULL;
@@ -322,10 +333,6 @@ buildexe(struct input *inputs, size_t ninputs, char *output)
 		fatal("%s: spawn \"%s\": %s", s->name, *(char **)s->cmd.val, strerror(errno));
 	if (waitpid(pid, &status, 0) < 0)
 		fatal("waitpid %ju:", (uintmax_t)pid);
-	for (i = 0; i < ninputs; ++i) {
-		if (inputs[i].filetype != OBJ)
-			unlink(inputs[i].name);
-	}
 	exit(!succeeded(s->name, pid, status));
 }
 
@@ -379,6 +386,8 @@ main(int argc, char *argv[])
 	size_t i;
 
 	argv0 = progname(argv[0], "cproc");
+	if (atexit(removetmpfiles) != 0)
+		fatal("atexit:");
 
 	arrayaddbuf(&stages[PREPROCESS].cmd, preprocesscmd, sizeof(preprocesscmd));
 	arrayaddptr(&stages[COMPILE].cmd, compilecommand(argv[0]));
